@@ -187,6 +187,7 @@ func checkMain(args []string) int {
 	realf := fs.String("real", "", "JSON file with the result of the real-network runs (mcreal)")
 	conff := fs.String("conform", "", "JSON file with the result of the environment conformance pass")
 	fs.Parse(args)
+	watchdogSetup() // (executions run in this process too: the determinism self-check)
 	t0 := time.Now()
 	seed := 0
 	if s := os.Getenv("VERIF_SEED"); s != "" {
